@@ -53,9 +53,9 @@ TFail   == IsEvent("fail") /\ (LET i == FByName(Ev.f) IN
 TReturn == IsEvent("return") /\ Return(Ev.results, Ev.loaded) /\ UNCHANGED exc
 (* the failure surfaces unchanged (same class and args), attributed to the failing function and its kwargs;       *)
 (* what was completely stored before stays loadable with the values of the denotation                            *)
-TRaise  == IsEvent("raise") /\ Raise /\ UNCHANGED exc
+TRaise  == /\ IsEvent("raise") /\ Raise /\ UNCHANGED exc
            /\ Ev.cls = exc.cls /\ Ev.args = exc.args /\ Ev.attributed
-           /\ \A k \in DOMAIN Ev.loaded : Ev.loaded[k][2] = den[Ev.loaded[k][1]]
+           /\ (\A k \in DOMAIN Ev.loaded : Ev.loaded[k][2] = den[Ev.loaded[k][1]])
            (* in-process execution (observed = first component non-empty): the ErrorSnapshot of the failing function,  *)
            (* reproduce()d directly and after save_to_file / load_from_file, raises this very exception               *)
            /\ (Ev.repro[1] # "" => Ev.repro = <<exc.cls, exc.args>>)
